@@ -40,9 +40,10 @@ try:
     if keep:
         dst = os.path.join(VERIF, "benign", bid)
         os.makedirs(dst, exist_ok=True)
-        shutil.copy(patch, dst)
-        if os.path.exists(os.path.join(d, "notes.md")):
-            shutil.copy(os.path.join(d, "notes.md"), dst)
+        if os.path.abspath(d) != os.path.abspath(dst):
+            shutil.copy(patch, dst)
+            if os.path.exists(os.path.join(d, "notes.md")):
+                shutil.copy(os.path.join(d, "notes.md"), dst)
         json.dump(out, open(os.path.join(dst, "result.json"), "w"), indent=1)
 finally:
     shutil.rmtree(mut, ignore_errors=True)
